@@ -282,7 +282,11 @@ class IntegralSolverPySCF(IntegralSolver):
         hcore = sqmol.mean_field.get_hcore()
 
         # step 3 : obatin two-electron integral in atomic basis
-        eri = self.ao2mo.restore(8, sqmol.mean_field._eri, nao)
+        ao_eri = sqmol.mean_field._eri
+        if ao_eri is None:
+            # The mean-field object does not always keep the AO integrals (e.g. one-electron systems)
+            ao_eri = sqmol.mean_field.mol.intor("int2e", aosym="s8")
+        eri = self.ao2mo.restore(8, ao_eri, nao)
 
         # step 4 : create the placeholder for the matrices
         # one-electron matrix (alpha, beta)
